@@ -14,9 +14,10 @@
                         of a source (const_env p = the source it was generated from)
      first_name D v     the first declared constant with value v: when several constants share a
                         value (aliases) it is the name that stands for the value, as with stringer
-     enum_guard p T     decidable guard: the package compiles, no spec's type is only inferred from
-                        its expression (K_enum_implicit_type), no two constants of T with one
-                        trimmed name.  Aliases and qualified-type specs are inside the guard.
+     enum_guard p T     decidable guard: the package compiles, no constant OF TYPE T has its type
+                        only inferred from its expression (K_enum_implicit_type; such constants
+                        of other types do not matter), no two constants of T with one trimmed name
+                        (K_enum_dup_trimmed).  Aliases and qualified-type specs are inside.
    All theorems hold for every package of the grammar (any number of types, files,
    blocks, specs, names) and every x : Z.  Only `exact`s here; proofs are in
    Proofs/Enum{Collect,Tables,Bits,Proofs}.v. *)
@@ -154,13 +155,17 @@ Theorem C04_guard_exact : forall p T fl g ce2,
 Proof. exact P_guard_exact. Qed.
 Print Assumptions C04_guard_exact.
 
-(* ... while the output compiles against the source it was generated from
-   (the stale-guard theorem is not vacuous) *)
-Theorem C04_fresh_output_compiles : forall p T fl g,
+(* ... while against the source it was generated from the guard function passes
+   and the map literals have distinct keys (the stale-guard theorem is not
+   vacuous).  `compiles` models exactly these two classes of compile errors (and
+   the -bit table of K_bit_map); it is NOT a full type-check of the output: see
+   K_enum_reserved_names below for a package inside the guard whose output does
+   not build for another reason. *)
+Theorem C04_fresh_output_passes_guard_and_keys : forall p T fl g,
   enum_guard p T = true -> generate p T fl = Some g ->
   compiles (const_env p) g false = true.
 Proof. exact P_fresh_output_compiles. Qed.
-Print Assumptions C04_fresh_output_compiles.
+Print Assumptions C04_fresh_output_passes_guard_and_keys.
 
 (* the boolean property the correspondence run evaluates on what the
    implementation did (EnumCorr.Pb04: build verdict, Values = declared values
@@ -283,7 +288,7 @@ Definition implicit_pkg : pkg :=
 
 Theorem C04_refuted_K_enum_implicit_type :
   exists p T fl g,
-    wf_pkg p = true /\ shape_ok p = true
+    wf_pkg p = true /\ shape_ok p = true /\ no_implicit p T = false
     /\ generate p T fl = Some g
     /\ In ("PermRW", 3) (declared T p)
     /\ is_valid (const_env p) g 3 = false.
@@ -310,3 +315,48 @@ Example C04_example_K_enum_foreign_carry_repaired :
        /\ t_values (const_env foreign_pkg) g = [1]
        /\ is_valid (const_env foreign_pkg) g 5 = false.
 Proof. split; [|split]; [vm_compute; reflexivity | vm_compute; reflexivity |]. eexists. conj; vm_compute; reflexivity. Qed.
+
+(* the guard is per type: an implicitly typed constant of ANOTHER type does not
+   take a type out of the theorems *)
+Definition mixed_pkg : pkg :=
+  {| p_types := [("Level", KInt8); ("Perm", KUint8)];
+     p_files := [ [ [ vs ["LevelLow"] (TIdent "Level") [EIota]; vs ["LevelHigh"] TNone [] ];
+                    [ vs ["PermRead"] (TIdent "Perm") [EShl (ELit 1) EIota];
+                      vs ["PermWrite"] TNone [];
+                      vs ["PermRW"] TNone [EOr (ERef "PermRead") (ERef "PermWrite")];
+                      vs ["PermAlso"] TNone [] ] ] ] |}.
+
+Example C04_example_guard_is_per_type :
+  enum_guard mixed_pkg "Level" = true /\ enum_guard mixed_pkg "Perm" = false
+  /\ declared "Level" mixed_pkg = [("LevelLow", 0); ("LevelHigh", 1)].
+Proof. conj; vm_compute; reflexivity. Qed.
+
+(* K_enum_dup_trimmed (open): two constants of the type whose names trim to one
+   string (LevelHigh and High): duplicate keys in the generated ValueMap literal,
+   the fresh output does not compile *)
+Definition dup_trimmed_pkg : pkg :=
+  {| p_types := [("Level", KInt)];
+     p_files := [ [ [ vs ["LevelHigh"] (TIdent "Level") [ELit 1];
+                      vs ["High"] (TIdent "Level") [ELit 2] ] ] ] |}.
+
+Theorem C04_refuted_K_enum_dup_trimmed :
+  exists p T fl g,
+    wf_pkg p = true /\ shape_ok p = true /\ no_implicit p T = true
+    /\ generate p T fl = Some g
+    /\ compiles (const_env p) g false = false.
+Proof. exists dup_trimmed_pkg, "Level", no_flags. eexists. conj; vm_compute; reflexivity. Qed.
+Print Assumptions C04_refuted_K_enum_dup_trimmed.
+
+(* K_enum_reserved_names (open; a compilability matter, C01): a constant named x is
+   shadowed by the guard function's own `var x [1]struct{}` (and constants named
+   fmt, bytes, errors, json, driver, shoot clash with the imports of the output).
+   Such a package is inside enum_guard and passes `compiles`, whose scope is the
+   guard index and the map keys only: the model does not see this error. *)
+Definition axis_pkg : pkg :=
+  {| p_types := [("Axis", KInt)];
+     p_files := [ [ [ vs ["x"] (TIdent "Axis") [EIota]; vs ["y"] TNone []; vs ["z"] TNone [] ] ] ] |}.
+
+Example C04_example_K_enum_reserved_names_not_modelled :
+  enum_guard axis_pkg "Axis" = true
+  /\ exists g, generate axis_pkg "Axis" no_flags = Some g /\ compiles (const_env axis_pkg) g false = true.
+Proof. split; [vm_compute; reflexivity|]. eexists. conj; vm_compute; reflexivity. Qed.
